@@ -156,6 +156,12 @@ func genC20(t *rapid.T) any {
 					Cond: sq.Cmp(rapid.SampledFrom([]string{">", "<", "="}).Draw(t, il+".cop"), sq.Col("a"), sq.Num(rapid.SampledFrom([]float64{1, 2, 3}).Draw(t, il+".cc")))})
 				continue
 			}
+			if rapid.IntRange(0, 11).Draw(t, il+".setroot") == 0 {
+				// SETVAR inside a sub query over a table of the enclosing document: one write per row of that table
+				// (z = 1, then z = 2), every time the item is evaluated
+				q.Items = append(q.Items, C20Item{Kind: "setroot", Key: rapid.SampledFrom([]string{"k1", "k2"}).Draw(t, il+".srkey"), Alias: fmt.Sprintf("sr%d", i)})
+				continue
+			}
 			switch kindDraw {
 			case 0, 1, 2:
 				k := rapid.SampledFrom([]string{"k1", "k2", "k3"}).Draw(t, il+".key")
@@ -194,7 +200,7 @@ func genC20(t *rapid.T) any {
 						}
 					})
 				}
-				if it.Kind == "getsub" || it.Kind == "getroot" || it.Kind == "caseset" || usesRow {
+				if it.Kind == "getsub" || it.Kind == "getroot" || it.Kind == "setroot" || it.Kind == "caseset" || usesRow {
 					continue
 				}
 				items = append(items, it)
@@ -398,6 +404,8 @@ func (q *C20Query) sql() string {
 			parts = append(parts, "GETVAR("+sq.StrLit(it.Key)+") AS "+it.Alias)
 		case "getsub":
 			parts = append(parts, "(SELECT GETVAR("+sq.StrLit(it.Key)+") AS g FROM dual) AS "+it.Alias)
+		case "setroot":
+			parts = append(parts, "(SELECT SETVAR("+sq.StrLit(it.Key)+", z) FROM `<-meta`) AS "+it.Alias)
 		case "getroot":
 			parts = append(parts, "(SELECT GETVAR("+sq.StrLit(it.Key)+") AS g FROM `<-meta`) AS "+it.Alias)
 		default:
@@ -607,6 +615,10 @@ func checkC20(c *C20Case) Result {
 						}
 						model[it.Key] = v
 						writer[it.Key] = stamp{qi, ri}
+					case "setroot":
+						model[it.Key] = 2.0
+						writer[it.Key] = stamp{qi, ri}
+						out[it.Alias] = []any{map[string]any{}, map[string]any{}}
 					case "get", "getsub", "getroot":
 						if w, ok := writer[it.Key]; ok && (w.q != qi || w.r != ri) {
 							crossRead = true
@@ -697,7 +709,7 @@ func checkC20(c *C20Case) Result {
 	for _, q := range c.Queries {
 		for _, it := range q.Items {
 			switch it.Kind {
-			case "set":
+			case "set", "setroot":
 				sets++
 			case "get", "getsub", "getroot":
 				gets++
